@@ -208,12 +208,19 @@ impl<S: BuildHasher + Clone + 'static> ExpirationMap<S> {
     }
 
     pub fn try_cleanup(&self, now: Time) -> Result<Option<HashMap<u64, u64, S>>, CacheError> {
+        // Every bucket that has come due, not only the one of the current second: the
+        // ticker does not visit every second (the default interval is two seconds).
         let bucket_num = cleanup_bucket(now);
-        Ok(self
-            .buckets
-            .write()
-            .remove(&bucket_num)
-            .map(|bucket| bucket.map))
+        let mut m = self.buckets.write();
+        let due: Vec<i64> = m.keys().copied().filter(|b| *b <= bucket_num).collect();
+        let mut keys: Option<HashMap<u64, u64, S>> = None;
+        for b in due {
+            if let Some(bucket) = m.remove(&b) {
+                keys.get_or_insert_with(|| HashMap::with_hasher(self.hasher.clone()))
+                    .extend(bucket.map);
+            }
+        }
+        Ok(keys)
     }
 
     pub fn clear(&self) {
